@@ -26,7 +26,8 @@ def generate(rng, tier):
         mg = P.add('GScalar', P.f(m))
         preds.append(('magnify_ref', [g, mg, P.add('TMagnify', g, mg)]))
         # inverse field scaling
-        q = r.logu(1e-3, 1e3); d = r.logu(1e-2, 1e2); s = r.logu(1e-3, 1e3); pw = r.choice([1.0, 2.0, 3.0, 0.5, 1.5, 2.5, 0.25, r.uniform(0.1, 3.5)])   # the property says q/r^n for real n: non-integer powers included
+        q = r.logu(1e-3, 1e3); d = r.logu(1e-2, 1e2); s = r.logu(1e-3, 1e3); pw = r.choice([1.0, 2.0, 3.0, 0.5, 1.5, 2.5, 0.25, r.uniform(0.1, 3.5),
+                                                                                             fb.nxt(float(r.choice([1, 2, 3])), r.choice([-2, -1, 1, 2])), float(r.choice([1, 2, 3])) + r.choice([-1e-11, 1e-11, -5e-11, 9e-11])])   # the property says q/r^n for real n: non-integer powers included
         a = canon_angle(P, r, False)
         ch = P.add('GNewBlade', P.f(q), P.u(r.choice([0, 4, 8, 1000])), P.f(0.0), P.f(1.0)); chn = P.add('GNewBlade', P.f(q), P.u(r.choice([2, 6, 10, 1002])), P.f(0.0), P.f(1.0))
         kc = P.add('GScalar', P.f(r.logu(1e-3, 1e3))); pwr = P.add('GScalar', P.f(pw))
